@@ -705,25 +705,51 @@ mod real {
         true
     }
 
-    macro_rules! typed_dst {
-        ($H:ident, $cfg:expr, $ops:expr, $lines:expr, $state:expr) => {{
-            let mut h = $H::new($cfg);
-            for k in 1..=$ops {
-                h.run(1);
-                let r = h.result();
-                $lines.push(format!("{} {:?} viol={}", k, r.last_op, r.invariant_violations.len()));
-                if !r.invariant_violations.is_empty() {
-                    break;
-                }
-            }
-            let r = h.result().clone();
-            let last = r.last_op.clone();
-            let mut rr = r.clone();
-            rr.last_op = None;
-            $lines.push(format!("result {:?} last={:?}", rr, last));
-            let f: &dyn Fn(&$H) -> String = &$state;
-            $lines.push(format!("state {}", f(&h)));
-        }};
+    /// `member:12` / `field:3` / `value:7` -> the number
+    fn num(s: &str) -> u64 {
+        s.rsplit(':').next().and_then(|x| x.parse().ok()).unwrap_or(u64::MAX)
+    }
+
+    pub fn list_config(preset: &str, seed: u64) -> Option<ListDSTConfig> {
+        match preset {
+            "default" => Some(ListDSTConfig::new(seed)),
+            "high_churn" => Some(ListDSTConfig::high_churn(seed)),
+            "modify_heavy" => Some(ListDSTConfig::modify_heavy(seed)),
+            _ => None,
+        }
+    }
+    pub fn set_config(preset: &str, seed: u64) -> Option<SetDSTConfig> {
+        match preset {
+            "default" => Some(SetDSTConfig::new(seed)),
+            "small_members" => Some(SetDSTConfig::small_members(seed)),
+            "high_churn" => Some(SetDSTConfig::high_churn(seed)),
+            "large_members" => Some(SetDSTConfig::large_members(seed)),
+            _ => None,
+        }
+    }
+    pub fn hash_config(preset: &str, seed: u64) -> Option<HashDSTConfig> {
+        match preset {
+            "default" => Some(HashDSTConfig::new(seed)),
+            "small_fields" => Some(HashDSTConfig::small_fields(seed)),
+            "high_churn" => Some(HashDSTConfig::high_churn(seed)),
+            _ => None,
+        }
+    }
+    pub fn tx_config(preset: &str, seed: u64) -> Option<TransactionDSTConfig> {
+        match preset {
+            "default" => Some(TransactionDSTConfig::new(seed)),
+            "high_conflict" => Some(TransactionDSTConfig::high_conflict(seed)),
+            "error_heavy" => Some(TransactionDSTConfig::error_heavy(seed)),
+            _ => None,
+        }
+    }
+    pub fn zset_config(preset: &str, seed: u64) -> Option<SortedSetDSTConfig> {
+        match preset {
+            "default" => Some(SortedSetDSTConfig::new(seed)),
+            "small_keyspace" => Some(SortedSetDSTConfig::small_keyspace(seed)),
+            "large_keyspace" => Some(SortedSetDSTConfig::large_keyspace(seed)),
+            _ => None,
+        }
     }
 
     pub fn typed(harness: &str, preset: &str, seed: u64, ops: usize, lines: &mut Vec<String>) -> bool {
@@ -752,67 +778,127 @@ mod real {
                 lines.push(format!("state keys={}", keys.join(",")));
             }
             "list" => {
-                let cfg = match preset {
-                    "default" => ListDSTConfig::new(seed),
-                    "high_churn" => ListDSTConfig::high_churn(seed),
-                    "modify_heavy" => ListDSTConfig::modify_heavy(seed),
-                    _ => return false,
-                };
-                typed_dst!(ListDSTHarness, cfg, ops, lines, |h: &ListDSTHarness| format!("{:?}", h.list().range(0, -1)));
-            }
-            "set" => {
-                let cfg = match preset {
-                    "default" => SetDSTConfig::new(seed),
-                    "small_members" => SetDSTConfig::small_members(seed),
-                    "high_churn" => SetDSTConfig::high_churn(seed),
-                    "large_members" => SetDSTConfig::large_members(seed),
-                    _ => return false,
-                };
-                typed_dst!(SetDSTHarness, cfg, ops, lines, |h: &SetDSTHarness| {
-                    let mut m: Vec<String> = h.set().members().iter().map(|x| format!("{:?}", x)).collect();
-                    m.sort();
-                    m.join(",")
-                });
-            }
-            "hash" => {
-                let cfg = match preset {
-                    "default" => HashDSTConfig::new(seed),
-                    "small_fields" => HashDSTConfig::small_fields(seed),
-                    "high_churn" => HashDSTConfig::high_churn(seed),
-                    _ => return false,
-                };
-                typed_dst!(HashDSTHarness, cfg, ops, lines, |h: &HashDSTHarness| {
-                    let mut m: Vec<String> = h.hash().get_all().iter().map(|x| format!("{:?}", x)).collect();
-                    m.sort();
-                    m.join(",")
-                });
-            }
-            "sorted-set" => {
-                let cfg = match preset {
-                    "default" => SortedSetDSTConfig::new(seed),
-                    "small_keyspace" => SortedSetDSTConfig::small_keyspace(seed),
-                    "large_keyspace" => SortedSetDSTConfig::large_keyspace(seed),
-                    _ => return false,
-                };
-                typed_dst!(SortedSetDSTHarness, cfg, ops, lines, |h: &SortedSetDSTHarness| format!("{:?}", h.sorted_set().range(0, -1)));
-            }
-            "transaction" => {
-                let cfg = match preset {
-                    "default" => TransactionDSTConfig::new(seed),
-                    "high_conflict" => TransactionDSTConfig::high_conflict(seed),
-                    "error_heavy" => TransactionDSTConfig::error_heavy(seed),
-                    _ => return false,
-                };
-                let mut h = TransactionDSTHarness::new(cfg);
+                use redis_sim::redis::list_dst::ListOp;
+                let Some(cfg) = list_config(preset, seed) else { return false };
+                let mut h = ListDSTHarness::new(cfg);
                 for k in 1..=ops {
                     h.run(1);
                     let r = h.result();
-                    lines.push(format!("{} {:?} viol={}", k, r.last_op, r.invariant_violations.len()));
+                    let t = match r.last_op.as_ref() {
+                        Some(ListOp::LPush { value }) => format!("lpush {}", num(value)),
+                        Some(ListOp::RPush { value }) => format!("rpush {}", num(value)),
+                        Some(ListOp::LPop) => "lpop".to_string(),
+                        Some(ListOp::RPop) => "rpop".to_string(),
+                        Some(ListOp::LSet { index, value }) => format!("lset {} {}", index, num(value)),
+                        Some(ListOp::Trim { start, stop }) => format!("trim {} {}", start, stop),
+                        None => "none".to_string(),
+                    };
+                    lines.push(format!("{} {} viol={}", k, t, r.invariant_violations.len()));
                     if !r.invariant_violations.is_empty() {
                         break;
                     }
                 }
-                lines.push(format!("result {:?}", h.result()));
+                let r = h.result();
+                lines.push(format!("result ops={} lpushes={} rpushes={} lpops={} rpops={} lsets={} trims={} viol={}",
+                    r.total_operations, r.lpushes, r.rpushes, r.lpops, r.rpops, r.lsets, r.trims, r.invariant_violations.len()));
+                let items: Vec<String> = h.list().range(0, -1).iter().map(|x| num(&x.to_string()).to_string()).collect();
+                lines.push(format!("state {}", items.join(",")));
+            }
+            "set" => {
+                use redis_sim::redis::set_dst::SetOp;
+                let Some(cfg) = set_config(preset, seed) else { return false };
+                let mut h = SetDSTHarness::new(cfg);
+                for k in 1..=ops {
+                    h.run(1);
+                    let r = h.result();
+                    let t = match r.last_op.as_ref() {
+                        Some(SetOp::Add { member }) => format!("add {}", num(member)),
+                        Some(SetOp::Remove { member }) => format!("rem {}", num(member)),
+                        None => "none".to_string(),
+                    };
+                    lines.push(format!("{} {} viol={}", k, t, r.invariant_violations.len()));
+                    if !r.invariant_violations.is_empty() {
+                        break;
+                    }
+                }
+                let r = h.result();
+                lines.push(format!("result ops={} adds={} existed={} removes={} notfound={} viol={}",
+                    r.total_operations, r.adds, r.add_existed, r.removes, r.remove_not_found, r.invariant_violations.len()));
+                let mut m: Vec<u64> = h.set().members().iter().map(|x| num(&x.to_string())).collect();
+                m.sort();
+                lines.push(format!("state {}", m.iter().map(|x| x.to_string()).collect::<Vec<_>>().join(",")));
+            }
+            "hash" => {
+                use redis_sim::redis::hash_dst::HashOp;
+                let Some(cfg) = hash_config(preset, seed) else { return false };
+                let mut h = HashDSTHarness::new(cfg);
+                for k in 1..=ops {
+                    h.run(1);
+                    let r = h.result();
+                    let t = match r.last_op.as_ref() {
+                        Some(HashOp::Set { field, value }) => format!("set {} {}", num(field), num(value)),
+                        Some(HashOp::Delete { field }) => format!("del {}", num(field)),
+                        None => "none".to_string(),
+                    };
+                    lines.push(format!("{} {} viol={}", k, t, r.invariant_violations.len()));
+                    if !r.invariant_violations.is_empty() {
+                        break;
+                    }
+                }
+                let r = h.result();
+                lines.push(format!("result ops={} sets={} updates={} deletes={} viol={}", r.total_operations, r.sets, r.updates, r.deletes, r.invariant_violations.len()));
+                let mut m: Vec<(u64, u64)> = h.hash().get_all().iter().map(|(f, v)| (num(&f.to_string()), num(&v.to_string()))).collect();
+                m.sort();
+                lines.push(format!("state {}", m.iter().map(|(f, v)| format!("{}={}", f, v)).collect::<Vec<_>>().join(",")));
+            }
+            "sorted-set" => {
+                use redis_sim::redis::sorted_set_dst::SortedSetOp;
+                let Some(cfg) = zset_config(preset, seed) else { return false };
+                let mut h = SortedSetDSTHarness::new(cfg);
+                let cents = |x: f64| -> u64 { (x * 100.0).round() as u64 };
+                for k in 1..=ops {
+                    h.run(1);
+                    let r = h.result();
+                    let t = match r.last_op.as_ref() {
+                        Some(SortedSetOp::Add { member, score }) => format!("add {} {}", num(member), cents(*score)),
+                        Some(SortedSetOp::Remove { member }) => format!("rem {}", num(member)),
+                        None => "none".to_string(),
+                    };
+                    lines.push(format!("{} {} viol={}", k, t, r.invariant_violations.len()));
+                    if !r.invariant_violations.is_empty() {
+                        break;
+                    }
+                }
+                let r = h.result();
+                lines.push(format!("result ops={} adds={} updates={} removes={} viol={}", r.total_operations, r.adds, r.updates, r.removes, r.invariant_violations.len()));
+                let m: Vec<String> = h.sorted_set().range(0, -1).iter().map(|(mem, sc)| format!("{}:{}", num(&mem.to_string()), cents(*sc))).collect();
+                lines.push(format!("state {}", m.join(",")));
+            }
+            "transaction" => {
+                use redis_sim::redis::transaction_dst::TransactionOp;
+                let Some(cfg) = tx_config(preset, seed) else { return false };
+                let mut h = TransactionDSTHarness::new(cfg);
+                for k in 1..=ops {
+                    h.run(1);
+                    let r = h.result();
+                    let t = match r.last_op.as_ref() {
+                        Some(TransactionOp::WatchExecNoConflict(d)) => format!("WatchExecNoConflict {}", d),
+                        Some(TransactionOp::WatchExecConflict(d)) => format!("WatchExecConflict {}", d),
+                        Some(TransactionOp::MultiExecSimple(d)) => format!("MultiExecSimple {}", d),
+                        Some(TransactionOp::DiscardAfterMulti(d)) => format!("DiscardAfterMulti {}", d),
+                        Some(TransactionOp::ErrorScenario(d)) => format!("ErrorScenario {}", d),
+                        Some(TransactionOp::UnwatchThenExec(d)) => format!("UnwatchThenExec {}", d),
+                        None => "none".to_string(),
+                    };
+                    lines.push(format!("{} {} viol={}", k, t, r.invariant_violations.len()));
+                    if !r.invariant_violations.is_empty() {
+                        break;
+                    }
+                }
+                let r = h.result();
+                lines.push(format!("result ops={} no_conflict={} conflict={} exec={} discard={} error={} unwatch={} viol={}",
+                    r.total_operations, r.watch_no_conflict, r.watch_conflict, r.simple_exec, r.discards, r.error_scenarios, r.unwatch_scenarios, r.invariant_violations.len()));
+                lines.push("state -".to_string());
             }
             _ => return false,
         }
@@ -1148,6 +1234,36 @@ fn cfg_numbers(harness: &str, preset: &str, seed: u64) -> Option<String> {
         let c = real::crdt_config(preset, seed)?;
         return Some(format!("{} {}", c.num_replicas, c.message_drop_prob.to_bits()));
     }
+    // thresholds: the harnesses' own expression `(p * 100.0) as u64` on the REAL preset values
+    let pct = |p: f64| -> u64 { (p * 100.0) as u64 };
+    match harness {
+        "set" => {
+            let c = real::set_config(preset, seed)?;
+            return Some(format!("{} {}", c.num_members, pct(c.remove_prob)));
+        }
+        "hash" => {
+            let c = real::hash_config(preset, seed)?;
+            return Some(format!("{} {} {}", c.num_fields, c.num_values, pct(c.delete_prob)));
+        }
+        "list" => {
+            let c = real::list_config(preset, seed)?;
+            let t = pct(c.trim_prob);
+            let l = t + pct(c.lset_prob);
+            let p = l + pct(c.pop_prob);
+            return Some(format!("{} {} {} {} {}", c.num_values, t, l, p, pct(c.left_prob)));
+        }
+        "transaction" => {
+            let c = real::tx_config(preset, seed)?;
+            let e = pct(c.error_prob);
+            let d = e + pct(c.discard_prob);
+            return Some(format!("{} {} {} {}", c.num_keys, e, d, d + pct(c.conflict_prob)));
+        }
+        "sorted-set" => {
+            let c = real::zset_config(preset, seed)?;
+            return Some(format!("{} {} {}", c.num_keys, pct(c.remove_prob), (c.max_score * 100.0) as u64));
+        }
+        _ => {}
+    }
     if harness == "wal" {
         let c = real::wal_config(preset)?;
         let sc = &c.store_config;
@@ -1219,11 +1335,11 @@ const FAMILIES: &[Family] = &[
     Family { name: "sim-executor", presets: &["script"], ops: 0, modelled: false, quick_presets: 1 },
     Family { name: "redis-dst", presets: &["chaos", "moderate", "calm"], ops: 150, modelled: false, quick_presets: 2 },
     Family { name: "executor", presets: &["default", "chaos", "calm", "string_heavy"], ops: 300, modelled: false, quick_presets: 2 },
-    Family { name: "list", presets: &["default", "high_churn", "modify_heavy"], ops: 300, modelled: false, quick_presets: 1 },
-    Family { name: "set", presets: &["default", "small_members", "high_churn", "large_members"], ops: 300, modelled: false, quick_presets: 1 },
-    Family { name: "hash", presets: &["default", "small_fields", "high_churn"], ops: 300, modelled: false, quick_presets: 1 },
-    Family { name: "sorted-set", presets: &["default", "small_keyspace", "large_keyspace"], ops: 300, modelled: false, quick_presets: 1 },
-    Family { name: "transaction", presets: &["default", "high_conflict", "error_heavy"], ops: 200, modelled: false, quick_presets: 1 },
+    Family { name: "list", presets: &["default", "high_churn", "modify_heavy"], ops: 300, modelled: true, quick_presets: 3 },
+    Family { name: "set", presets: &["default", "small_members", "high_churn", "large_members"], ops: 300, modelled: true, quick_presets: 4 },
+    Family { name: "hash", presets: &["default", "small_fields", "high_churn"], ops: 300, modelled: true, quick_presets: 3 },
+    Family { name: "sorted-set", presets: &["default", "small_keyspace", "large_keyspace"], ops: 300, modelled: true, quick_presets: 3 },
+    Family { name: "transaction", presets: &["default", "high_conflict", "error_heavy"], ops: 200, modelled: true, quick_presets: 3 },
     Family { name: "multi-node", presets: &["broadcast", "lossy", "partitioned", "no-anti-entropy"], ops: 250, modelled: false, quick_presets: 3 },
     Family { name: "partition", presets: &["isolate", "split_brain", "ring", "asymmetric"], ops: 0, modelled: false, quick_presets: 2 },
     Family { name: "streaming", presets: &["moderate", "chaos", "calm", "default"], ops: 150, modelled: false, quick_presets: 2 },
